@@ -356,7 +356,7 @@ class BinningBase:
         bin_map: Iterator(tuple)
             The bins must be in ascending order
         """
-        length = max(item[1] for item in bin_map) + 1
+        length = max((item[1] for item in bin_map), default=-1) + 1  # No bin (yet), no merged bin
         bins = np.empty((length, 2), dtype=float)
         bins[:] = np.nan
         for old, new in bin_map:
